@@ -191,6 +191,26 @@ func RunCrash(plan *Plan, thorough bool) *RunResult {
 	for di := range w.Disks {
 		flushes += len(w.Files[di].Timeline)
 		cases := crashCases(w, di, rng, thorough)
+		// Bounded runs: every crash image is rebuilt from the log, opened
+		// by the real code and decoded, i.e. costs time proportional to the
+		// file size.  A history with a large file (70 KiB root records,
+		// 64 KiB values) keeps a deterministic sample of its cut points so
+		// that one run cannot take minutes.
+		capBytes := int64(48 << 20)
+		if thorough {
+			capBytes = 256 << 20
+		}
+		if est := int64(len(cases)) * (w.Disks[di].Size() + 1); est > capBytes {
+			stride := int((est + capBytes - 1) / capBytes)
+			kept := cases[:0]
+			for i, c := range cases {
+				if i%stride == 0 || c.Spec.Torn == 0 && c.Spec.Junk == 0 && i%((stride+3)/4) == 0 {
+					kept = append(kept, c)
+				}
+			}
+			cases = kept
+			w.probe("crash-cut-points-sampled-for-a-large-file")
+		}
 		for _, c := range cases {
 			img, stack := w.CrashImage(di, &c.Spec)
 			Progress.Add(1)
